@@ -140,7 +140,7 @@ def run(ctx):
     for f in single[: (60 if q else 800)] + multi[: (60 if q else 800)]:
         w = f.split()[1] == "w"
         for _ in range(2):
-            T = rng.choice([1, 10, 49, 50, 100, 300, 700, 714, 715, 1000, 5000, 60000, rng.randrange(1, 100000)])
+            T = rng.choice([0, 0, 1, 10, 49, 50, 100, 300, 700, 714, 715, 1000, 5000, 60000, rng.randrange(1, 100000)])
             other = rng.choice([3_600_000, 86_400_000])
             lim = "%s %d %s %d" % ("wtime" if w else "btime", T, "btime" if w else "wtime", other)
             if rng.random() < 0.4:
